@@ -14,6 +14,16 @@ CHECKS = {
          "Trusted: CPython 3.12, networkx, the tick() formula-start log, the closed-form reference values. "
          "Bounds: n<=4/5 elements, clean start, cached targets.",
          "DESIGN.md section 2 C16"),
+ "C02": ("model_checking",
+         "explicit-state BFS over edit/evaluation histories of the real implementation, differential oracle live vs edits-only twin",
+         "Every interleaving of <=3 (thorough: 4) edit and evaluation operations over the alphabets of 10 root models "
+         "(one per kind of dependency path: by-name reference, attribute path, _space/_model, object-valued reference, "
+         "inheritance, ItemSpace, parameter formula, recursion, built-in shadowing, space-valued reference) is replayed on "
+         "the real implementation; after each history all probe queries must equal those of a fresh model to which "
+         "only the edits were applied - literally the statement. States are merged by a canonical session state.",
+         "Trusted: the edits-only twin (same implementation, checked absolutely by C01), canonical-state merging "
+         "(can hide only bugs depending on dict orders/weak caches), CPython 3.12. Bounds: depth, alphabets in mxmc/evalfam.py.",
+         "DESIGN.md section 2 C02"),
 }
 NOT_BUILT = {}
 
